@@ -195,8 +195,12 @@ def _make(np, di, si, li):
     if lay == "F":
         return np.asfortranarray(base)
     if lay == "strided":
-        big = flat.reshape((2,) + shape) if n else flat[:0].reshape((0,) + shape)
-        return flat[::2][:n].reshape(shape) if len(shape) <= 1 else base[::1, ::1][..., ::1].copy()[::1][::1, ::-1][::1, ::-1] if False else base[..., ::1][::1]
+        if base.ndim == 0:
+            return base
+        big = np.empty((shape[0] * 2,) + tuple(shape[1:]), dtype=dt)
+        big[::2] = base
+        big[1::2] = base
+        return big[::2]                 # every other row of a larger array: non-contiguous, same values
     if lay == "transposed":
         return base.T
     if lay == "reversed":
